@@ -94,6 +94,15 @@ def run(P, rep, tier):
         raise AnalysisError('path budget exceeded on the header function')
     rep.extra['paths_explored'] = len(paths)
 
+    # every regular expression applied on the header path must be a constant the folder could evaluate: an
+    # unknown pattern would be explored as "matches or not", which says nothing about the accepted language
+    from sa.model import Regex
+    for p in paths:
+        for ev in p.events:
+            if ev.kind == 'regex-apply' and R.header_fn in ev.stack and not isinstance(concrete(ev.data['regex']), Regex):
+                raise AnalysisError('a regular expression applied at %s is not a foldable constant (%s): the accepted header language '
+                                    'cannot be extracted' % (ev.loc, norm(ev.node)[:60]))
+
     # ---- R0: what the header regex is applied to -------------------------
     r0 = rep.rule('C11-R0', 'the header regex is applied to the raw line minus exactly one trailing newline', reference=1)
     apps = {}
